@@ -14,13 +14,13 @@ for d in (CACHE, EVID, REPLAYS):
 def log(*a):
     print(*a, file=sys.stderr, flush=True)
 
-def run(cmd, cwd=None, timeout=None, env=None, input=None):
+def run(cmd, cwd=None, timeout=None, env=None, input=None, drop_stderr=False):
     e = dict(os.environ)
     e.update({'CARGO_NET_OFFLINE': 'true', 'GOPROXY': 'off', 'PIP_NO_INDEX': '1'})
     if env: e.update(env)
     try:
         p = subprocess.run(cmd, cwd=cwd, timeout=timeout, env=e, input=input, shell=isinstance(cmd, str),
-                           stdout=subprocess.PIPE, stderr=subprocess.STDOUT, text=True, errors='replace')
+                           stdout=subprocess.PIPE, stderr=(subprocess.DEVNULL if drop_stderr else subprocess.STDOUT), text=True, errors='replace')
         return p.returncode, p.stdout
     except subprocess.TimeoutExpired as ex:
         out = ex.stdout if isinstance(ex.stdout, str) else (ex.stdout or b'').decode('utf8', 'replace')
